@@ -28,7 +28,12 @@ SIM_ACTIONS = MC_ACTIONS + ["MAddUserNo", "MDisableUserNo", "MChangePasswordNo",
 # family is also run in a variant that avoids the trigger of a divergence already seen):
 #   full        every step of the behaviour
 #   one-session a password change is skipped while that user holds two or more remote sessions
+#   usm-request / usm-api  (a few behaviours only) the remote logins do not come through a client's terminal but
+#               through the server's own `user-session-manager remote_login` request - the other login entry of
+#               the request tree, used by no agent action - resp. the method behind it; password changes as in
+#               one-session
 VARIANTS = ["full", "one-session"]
+DIRECT = ["usm-request", "usm-api"]
 
 
 def _params(s: str) -> List[Any]:
@@ -74,7 +79,7 @@ def run_actions(kind: str, variant: str, max_remote: int, timeout: int, actions:
     try:
         for act in actions:
             base, args = act[0], list(act[1:])
-            if variant == "one-session" and base == "ChangePassword" and rig.sessions_of(args[0]) >= 2:
+            if variant != "full" and base == "ChangePassword" and rig.sessions_of(args[0]) >= 2:
                 continue
             acts.append([base] + args)
             if base == "AddUser":
@@ -85,6 +90,8 @@ def run_actions(kind: str, variant: str, max_remote: int, timeout: int, actions:
                 rig.change_password(args[0], args[1], args[2])
             elif base == "LocalLogin":
                 rig.local_login(args[0], args[1])
+            elif base == "RemoteLogin" and variant in DIRECT:
+                rig.direct_login(args[0], args[1], args[2], variant)
             elif base == "RemoteLogin":
                 rig.remote_login(args[0], args[1], args[2])
             elif base == "RemoteCommand":
@@ -124,7 +131,8 @@ def replay(path: str) -> int:
     d = json.loads(open(path).read())
     stim = d["detail"]["stimulus"]
     common.boot()
-    tr = run_actions(stim["server_type"], "full", stim["maxRemote"], stim["timeout"], stim["actions"])
+    variant = stim.get("variant") if stim.get("variant") in DIRECT else "full"
+    tr = run_actions(stim["server_type"], variant, stim["maxRemote"], stim["timeout"], stim["actions"])
     res = tlc.validate("SessionsTrace", [tr])
     (reached, length), stuck = res["results"][0], res["stuck"][0]
     if reached == length + 1:
@@ -138,17 +146,17 @@ def replay(path: str) -> int:
 
 
 def _cause(tr: Dict[str, Any], pos: int, sid: int) -> str:
-    """Why the module counts session `sid` as ended before event `pos` (1-based): the last ending event."""
-    user = ""
-    for e in tr["ev"][: pos - 1]:
-        for x in e["rem"]:
-            if x["sid"] == sid:
-                user = x["user"]
-    for e in reversed(tr["ev"][: pos - 1]):
-        if e["ev"] == "Logoff" and e["ok"] and e["sid"] == sid:
-            return "logoff"
-        if e["ev"] == "ChangePassword" and e["ok"] and e["u"] == user and user:
-            return "password-change"
+    """Why the module counts session `sid` as ended before event `pos` (1-based): the first event that ended it
+    while it was in the server's table (a logoff of it, a password change of its user), else the time-out."""
+    prev: List[Dict[str, Any]] = []
+    for e in tr["ev"][: max(0, pos - 1)]:
+        mine = [x for x in prev if x["sid"] == sid]
+        if mine:
+            if e["ev"] == "Logoff" and e["ok"] and e["sid"] == sid:
+                return "logoff"
+            if e["ev"] == "ChangePassword" and e["ok"] and e["u"] == mine[0]["user"]:
+                return "password-change"
+        prev = e["rem"]
     return "time-out"
 
 
@@ -159,6 +167,9 @@ def sig_fn(tr, event, stuck):
     if ev == "Raised":
         sig["exception"] = event.get("kind")
         sig["during"] = event.get("during")
+        sig["clause"] = "no-matching-action"   # whatever else the half-done call left behind
+    if tr["meta"].get("variant") in DIRECT:
+        sig["login_entry"] = tr["meta"]["variant"]
     if ev == "RemoteCommand" and "NoExecAfterEnd" in fail:
         sig["ended_by"] = _cause(tr, (stuck or {}).get("pos", 0), event.get("sid", 0))
     if ev in ("RemoteLogin", "LocalLogin") and any(f.startswith("Login") for f in fail):
@@ -181,6 +192,8 @@ def _outcomes(traces: List[Dict[str, Any]]) -> Dict[str, int]:
                 inc(f"{n}:{'success' if e['ok'] else 'refused'}")
             elif n in ("RemoteCommand", "LocalLogin"):
                 inc(f"{n}:{'executed' if e['exec'] else 'not-executed'}")
+                if e["ok"] and not e["exec"]:
+                    inc(f"{n}:answered-success-without-effect")
             elif n == "Tick" and len(e["rem"]) < prev_rem:
                 inc("Tick:session-ended")
             else:
@@ -195,6 +208,7 @@ def main(tier: str, seed: int) -> int:
     runs = [("MC_Sessions.cfg", "MC_Sessions(1 server, 2 clients, 2 users, 3 passwords, MaxRemote 2, Timeout 2, depth 7)")]
     if tier != "quick":
         runs.append(("MC_SessionsDeep.cfg", "MC_Sessions(same, depth 8)"))
+        runs.append(("MC_SessionsWide.cfg", "MC_Sessions(MaxRemote 1..2 x Timeout {1,3}, depth 7)"))
     for cfg, label in runs:
         r = tlc.mc("MC_Sessions", cfg=cfg, timeout=1800)
         if not r["ok"]:
@@ -204,7 +218,8 @@ def main(tier: str, seed: int) -> int:
             if r["coverage"].get(act, (0, 0))[1] == 0:
                 raise tlc.TLCError(f"vacuous model: action {act} never taken ({cfg})")
     # 2. spec -> code: behaviours of the model as stimuli
-    nbeh = 160 if tier == "quick" else 1500
+    nbeh = 480 if tier == "quick" else 1500
+    ndirect = 8 if tier == "quick" else 60   # of which: logins through the server's own login entry
     depth = 24 if tier == "quick" else 36
     behs, info = tlc.simulate("MC_Sessions", cfg="MC_SessionsSim.cfg", num=nbeh, depth=depth, seed=seed + 16)
     chk.cov["transitions"] += info["states"]
@@ -221,6 +236,8 @@ def main(tier: str, seed: int) -> int:
         kind = SERVER_KINDS[0] if (tier == "quick" and i % 8 < 6) or (tier != "quick" and i % 4 < 2) else \
             SERVER_KINDS[1 + (i // 2) % 2]
         variant = VARIANTS[i % len(VARIANTS)]
+        if i >= len(behs) - ndirect:
+            variant = DIRECT[i % len(DIRECT)]
         tr = run_behaviour(kind, variant, beh)
         traces.append(tr)
         nontrivial = any(e["ev"] == "RemoteLogin" and e["ok"] for e in tr["ev"])
@@ -231,13 +248,17 @@ def main(tier: str, seed: int) -> int:
     common.judge_traces(chk, "Sessions", traces, res, sig_fn)
     chk.cov["impl_outcomes"] = _outcomes(traces)
     chk.cov["server_types"] = {k: sum(1 for t in traces if t["meta"]["server_type"] == k) for k in SERVER_KINDS}
-    chk.cov["variants"] = {v: sum(1 for t in traces if t["meta"]["variant"] == v) for v in VARIANTS}
+    chk.cov["variants"] = {v: sum(1 for t in traces if t["meta"]["variant"] == v) for v in VARIANTS + DIRECT}
     need = ["RemoteLogin:success", "RemoteLogin:refused", "RemoteCommand:executed", "RemoteCommand:not-executed",
             "LocalLogin:executed", "LocalLogin:not-executed", "Logoff:success", "ChangePassword:success",
             "DisableUser:success", "DisableUser:refused", "Tick:session-ended"]
     lacking = [k for k in need if not chk.cov["impl_outcomes"].get(k)]
     if lacking:
         raise tlc.TLCError(f"vacuous binding: outcomes never observed on the implementation: {lacking}")
+    stale = {k: v for k, v in chk.cov["impl_outcomes"].items() if k.endswith("without-effect")}
+    if stale:
+        chk.notes.append(f"responses are not used in the verdict: {stale} (send_local_command always answers success; "
+                         "send_remote_command can return the terminal's previous _last_response)")
     for tr in traces[:2]:
         chk.sample({"cfg": tr["cfg"], "meta": tr["meta"], "events": tr["ev"][:8]})
     chk.assumptions += [
